@@ -51,7 +51,15 @@ CONC = {
     "isnone": lambda a: a is None,
     "truthy": lambda a: bool(a),
     "eq": lambda a, b: a == b,
+    "has": lambda d, k: k in d,
+    "get": lambda d, k: d[k],
+    "len": len,
+    "True": True, "False": False, "None": None,
 }
+
+
+def _forall_int(f, lo=-2, hi=12):
+    return all(f(i) for i in range(lo, hi))
 
 
 class _LazyImplies(ast.NodeTransformer):
@@ -67,20 +75,30 @@ class _LazyImplies(ast.NodeTransformer):
 
 
 class _OldCollector(ast.NodeTransformer):
-    def __init__(self):
+    """scalar mode: old(e) is pre-evaluated before the call (olds list).
+    object mode (obj_names given): old(e) becomes (lambda self=__snap_self, ...: e)() so that it
+    reads the pre-state snapshots while variables bound by enclosing forall-lambdas stay visible."""
+
+    def __init__(self, obj_names=None):
         self.olds = []
+        self.obj_names = obj_names
 
     def visit_Call(self, node):
         if isinstance(node.func, ast.Name) and node.func.id == "old" and len(node.args) == 1:
+            if self.obj_names is not None:
+                inner = self.generic_visit(node.args[0]) if False else node.args[0]
+                args = ast.arguments(posonlyargs=[], args=[ast.arg(arg=n) for n in self.obj_names], kwonlyargs=[], kw_defaults=[],
+                                     defaults=[ast.Name(id="__snap_%s" % n, ctx=ast.Load()) for n in self.obj_names])
+                return ast.Call(func=ast.Lambda(args=args, body=inner), args=[], keywords=[])
             self.olds.append(node.args[0])
             return ast.Name(id="__old%d" % (len(self.olds) - 1), ctx=ast.Load())
         self.generic_visit(node)
         return node
 
 
-def compile_spec(text):
+def compile_spec(text, obj_names=None):
     tree = ast.parse(text.strip(), mode="eval")
-    oc = _OldCollector()
+    oc = _OldCollector(obj_names)
     tree = oc.visit(tree)
     tree = _LazyImplies().visit(tree)
     ast.fix_missing_locations(tree)
@@ -101,30 +119,71 @@ def real_function(target):
     return obj
 
 
-def native_check(c, kwargs, extra_env=None):
+def _snapshot(o):
+    """pre-state snapshot of an object argument: shallow copy with its containers copied"""
+    import copy
+    try:
+        sn = copy.copy(o) if not hasattr(o, "__deepcopy__") else object.__new__(type(o))
+    except Exception:
+        sn = object.__new__(type(o))
+    d = getattr(o, "__dict__", None)
+    if d is not None:
+        for k, v in d.items():
+            if isinstance(v, (dict, list, set)):
+                v = type(v)(v) if type(v) in (dict, list, set) else copy.copy(v)
+            try:
+                object.__setattr__(sn, k, v)
+            except Exception:
+                pass
+    return sn
+
+
+def _g(env):
+    """spec expressions are evaluated with env as GLOBALS (names inside forall-lambdas resolve there)"""
+    g = dict(env)
+    g["__builtins__"] = {}
+    return g
+
+
+def native_check(c, kwargs, extra_env=None, universe=None):
     """call the real function on kwargs; returns (failed clause names, outcome description).
-    The precondition is checked first: inputs outside it return None."""
+    The precondition is checked first: inputs outside it return None.
+    Object arguments are snapshotted so that old(...) reads the pre-state; `universe`
+    (class name -> list of objects) gives forall_ref its finite range."""
     env = dict(CONC)
     env.update(kwargs)
     if extra_env:
         env.update(extra_env)
+    uni = universe or {}
+    env["forall_ref"] = lambda cls, f: all(f(x) for x in uni.get(cls, []))
+    env["forall_int"] = _forall_int
+    # only state-holding arguments are snapshotted (the receiver, objects named in `modifies`, and
+    # arguments of the receiver's class); other objects (dictionary keys such as taxa) keep their identity
+    holders = set(loc.split(".")[0] for loc in c.modifies if "." in loc and not loc.endswith("[*]"))
+    holders.add("self")
+    selfv = kwargs.get("self")
+    obj_names = [k for k, v in kwargs.items() if getattr(v, "__dict__", None) is not None and type(v).__module__.startswith("dendropy")
+                 and (k in holders or (selfv is not None and type(v) is type(selfv)))]
+    for n in obj_names:
+        env["__snap_%s" % n] = _snapshot(kwargs[n])
+    on = obj_names if obj_names else None
     try:
-        pre_code, _ = compile_spec(c.requires)
-        if not eval(pre_code, {"__builtins__": {}}, env):
+        pre_code, _ = compile_spec(c.requires, on)
+        if not eval(pre_code, _g(env)):
             return None, "outside requires"
     except Exception as e:
         return None, "requires not evaluable natively: %r" % (e,)
     specs = []
     for nm, ens in c.ensures_items():
-        code, olds = compile_spec(ens)
+        code, olds = compile_spec(ens, on)
         oldvals = {}
         for i, oc in enumerate(olds):
-            oldvals["__old%d" % i] = eval(oc, {"__builtins__": {}}, env)
+            oldvals["__old%d" % i] = eval(oc, _g(env))
         specs.append((nm, code, oldvals))
     raise_conds = {}
     for exc, cond in c.raises.items():
-        code, _ = compile_spec(cond)
-        raise_conds[exc] = bool(eval(code, {"__builtins__": {}}, env))
+        code, _ = compile_spec(cond, on)
+        raise_conds[exc] = bool(eval(code, _g(env)))
     fn = real_function(c.target)
     failed = []
     try:
@@ -140,7 +199,7 @@ def native_check(c, kwargs, extra_env=None):
             # the harness built the receiver with __new__ and only the modelled attributes: an
             # attribute outside the model is missing -- not a replay of the obligation
             return None, "not replayable natively (object outside the modelled attributes: %s)" % raised
-        if not raise_conds.get(en, False):
+        if not raise_conds.get(en, False) and en not in c.allowed_raises and "*" not in c.allowed_raises:
             failed.append("raised %s: %s" % (en, raised))
         return failed, "raised %r" % (raised,)
     for exc, must in raise_conds.items():
@@ -151,7 +210,7 @@ def native_check(c, kwargs, extra_env=None):
         e2.update(oldvals)
         e2["result"] = result
         try:
-            ok = eval(code, {"__builtins__": {}}, e2)
+            ok = eval(code, _g(e2))
         except Exception as e:
             ok = False
             nm = "%s (spec evaluation raised %r)" % (nm, e)
@@ -384,3 +443,44 @@ def replay_any(ctx, suite, c, ob, witness, bv_widths):
 def _has_self(c):
     m, ci, fn = frontend.resolve(c.target)
     return ci is not None and fn.name not in ci.static
+
+
+def replay_by_search(states):
+    """replay hook factory: `states(c)` yields (kwargs, universe, description) of REAL objects in
+    reachable states; the real method is called under the natively evaluated contract."""
+
+    def hook(ctx, suite, c, ob, witness, bv_widths):
+        label = None
+        if ".ensures[" in ob.name:
+            label = ob.name.split(".ensures[", 1)[1].split("]", 1)[0]
+        first_any = None
+        n = 0
+        for kw, uni, desc in states(c):
+            n += 1
+            failed, outcome = native_check(c, kw, universe=uni)
+            if not failed:
+                continue
+            hit = (label is None) or any(f == label or f.startswith(label + " ") for f in failed)
+            if hit or first_any is None:
+                rec = (desc, failed, outcome)
+                if hit:
+                    first_any = rec
+                    break
+                first_any = rec
+        if first_any is not None:
+            desc, failed, outcome = first_any
+            ctx.obligation(ob.name, "refuted", "z3+native-replay", ob.time_s, c.target, detail="%s -> %s" % (desc, outcome))
+            ctx.fail(ob.name, dict(key="%s|%s" % (c.name, desc), function=c.target, state=desc, failed_clauses=failed, outcome=outcome,
+                                    found_by="native small-scope search over %d reachable states" % n),
+                     detail="%s on %s: %s; failed clauses: %s" % (c.name, desc, outcome, failed), kind="T1")
+            return True
+        st = ob.status
+        ctx.obligation(ob.name, st, "z3", ob.time_s, c.target, detail=(ob.detail or "") + " no native witness among %d states" % n)
+        if st == "refuted":
+            ctx.fail(ob.name, dict(key="obligation:%s" % ob.name, solver_output="sat", model=str(witness)),
+                     detail="obligation refuted by z3; no failing input among %d reachable states" % n, kind="T1", no_input=True)
+        else:
+            ctx.undecided_ob(ob.name, ob.detail)
+        return True
+
+    return hook
